@@ -385,12 +385,62 @@ def big_shape(case):
     return n, (kind, tuple(dims), n)
 
 
+def _verify_table(world, kind, dims, when):
+    d3 = list(dims) + [0] * (3 - len(dims))
+    ext = [max(e, 1) for e in d3]
+    table = [(x, y, z) for z in range(ext[2]) for y in range(ext[1]) for x in range(ext[0])]
+    got = [tuple(int(v) for v in p) for p in world.cells['pos']]
+    if got != table:
+        k = next((i for i, (a, b) in enumerate(zip(got, table)) if a != b), min(len(got), len(table)))
+        raise Violation(f'{kind} world {dims} {when}: the position table differs from the cells in id order (x fastest, then y, '
+                        f'then z) from id {k} on', expected=table[k:k + 3], observed=got[k:k + 3])
+    narg = NARG.get(kind, 3)
+    for cid in sorted({0, len(table) // 2, len(table) - 1}):
+        p = table[cid]
+        if Envs.discrete_grid_pos_to_id(p[0], p[1], world.width, p[2], world.height) != cid or \
+                tuple(world.get_cell(*p[:narg])['pos']) != p:
+            raise Violation(f'{kind} world {dims} {when}: cell {p} is not row {cid}')
+    return len(table)
+
+
+def sequence_case(case):
+    """Several worlds built one after the other in ONE process (nothing is reset in between): each has its own table of
+    cells, right after it was built and still when all the others exist."""
+    reset_library()
+    built = []
+    n = 0
+    for kind, dims in case['worlds']:
+        w = mk(new_model(seed=1), kind, dims, False)
+        n += _verify_table(w, kind, dims, 'right after it was built (after %d earlier worlds)' % len(built))
+        built.append((w, kind, dims))
+        if not case.get('keep'):
+            built = built[-1:]        # the earlier worlds are dropped (and may be collected)
+    for w, kind, dims in built:
+        n += _verify_table(w, kind, dims, 'after %d more worlds were built' % (len(case['worlds']) - 1))
+    return n, ('sequence', len(case['worlds']), n)
+
+
+def sequence_cases():
+    sides = (1, 2, 3, 10, 11, 12, 21, 23, 101, 110, 111)
+    grids = [('grid', [a, b]) for a in sides for b in sides]
+    for keep in (True, False):
+        yield {'leg': 'sequence', 'worlds': grids, 'keep': keep}
+        yield {'leg': 'sequence', 'worlds': grids[::-1], 'keep': keep}
+        yield {'leg': 'sequence', 'keep': keep,
+               'worlds': [('line', [1100]), ('grid', [80, 2]), ('discrete', [3, 2, 2]), ('line', [111]), ('grid', [11, 10]),
+                          ('grid', [1, 110]), ('discrete', [1, 1, 10]), ('discrete', [11, 0, 0]), ('grid', [2, 1030]),
+                          ('grid', [40, 3]), ('discrete', [2, 2, 1030]), ('discrete', [5, 4, 3]), ('line', [2050]),
+                          ('grid', [1030, 2]), ('grid', [7, 7])]}
+        yield {'leg': 'sequence', 'keep': keep,
+               'worlds': [('discrete', [a, b, c]) for a in (1, 2, 11) for b in (0, 1, 12) for c in (0, 1, 2, 21)]}
+
+
 def chunk_fn(ctx, chunk):
     for case in chunk:
         ctx.traces += 1
         ctx.states += 1
         try:
-            q, out = hbfs._guard({'big': big_shape, 'history': history_case}.get(case['leg'], check_shape), case)
+            q, out = hbfs._guard({'big': big_shape, 'history': history_case, 'sequence': sequence_case}.get(case['leg'], check_shape), case)
             ctx.transitions += q
             ctx.outcome(out)
         except Violation as v:
@@ -416,6 +466,8 @@ def run(ctx):
               {'leg': 'big', 'kind': 'discrete', 'dims': [48, 40, 36]}]
     if ctx.small:
         cases = [c for c in cases if c['leg'] != 'big']
+    if not ctx.small:
+        cases += list(sequence_cases())
     hist = [c for c in history_cases(ctx.tier) if not ctx.small or len(c['ops']) == 1]
     cases += hist
     if ctx.tier == 'thorough':
@@ -430,4 +482,4 @@ def run(ctx):
 
 
 def replay(case):
-    hbfs._guard({'big': big_shape, 'history': history_case}.get(case['leg'], check_shape), case)
+    hbfs._guard({'big': big_shape, 'history': history_case, 'sequence': sequence_case}.get(case['leg'], check_shape), case)
